@@ -37,11 +37,26 @@ def run_ceiling(case, ctx, mon):
     if fam == "linear":
         cfg = {"kind": "linear", "width": case["width"], "depth": case["depth"]}
     else:
-        cfg = {"kind": "hh", "width": case["width"], "depth": case["depth"], "max_key_len": 8}
-    s = state.make(cfg)
+        cfg = {"kind": "hh", "width": case["width"], "depth": case["depth"], "max_key_len": case.get("max_key_len", 8)}
+    try:
+        s = state.make(cfg)
+    except ValueError:
+        if cfg.get("max_key_len", 8) > 255:
+            mon.count("max_key_len_above_255_refused_by_this_tree")  # the unchanged library refuses such configurations
+            mon.nontrivial(True)
+            return
+        raise
     est = lambda sk_: int(sk_.query(key)) if fam == "linear" else int(sk_[key])  # noqa: E731
     # reach `start` (close to the ceiling) with one add, key alone in the sketch
-    s.add(key, start)
+    if case.get("assigned_start") and fam == "linear":
+        # ... or by writing the counters through the documented `cms` attribute (a table restored by the user): the bookkeeping
+        # totals stay small while the cells are next to the ceiling
+        cells_ = state.Prober(cfg).cells(key)
+        for r_, c_ in enumerate(cells_):
+            s.cms[r_, c_] = start
+        mon.count("ceiling_cases_started_by_assigning_the_table")
+    else:
+        s.add(key, start)
     true = start
     mon.check(est(s) == min(true, CAP), "estimate==min(true,cap)-for-a-lone-key", family=fam, true=true, got=est(s), step="start", cfg=cfg)
     hit = est(s) == CAP
@@ -275,7 +290,7 @@ def gen_cases(ctx):
                     steps = [[how, v], [pick(rng, ["add", "merge", "ngram"]), pick(rng, [0, 1, 3, CAP, 2**33])], ["add", 1], ["ngram", 1], ["merge", 2],
                              ["ngram", 1]]
                     cases.append({"type": "ceiling", "family": fam, "start": CAP - off - (3 if rng.random() < 0.5 else 0), "steps": steps,
-                                  "key": hx(rand_key(rng, 1, 8)), "width": 64, "depth": int(rng.integers(1, 4))})
+                                  "key": hx(rand_key(rng, 1, 8)), "width": 64, "depth": int(rng.integers(1, 4)), "assigned_start": bool(rng.random() < 0.5)})
         # the empty key, and merges whose two operands are one sketch, from a few starting points
         for start in (5, 2**31 + 5, 2**31 - 1, CAP - 1, CAP):
             cases.append({"type": "ceiling", "family": fam, "start": start, "key": "", "width": int(rng.integers(1, 6)), "depth": int(rng.integers(1, 4)),
@@ -291,6 +306,10 @@ def gen_cases(ctx):
                               "depth": int(rng.integers(1, 4)),
                               "steps": [["ngram-run", pick(rng, [0, 1, 2])], ["ngram-run", 2 * n + int(rng.integers(0, 4))], ["ngram-run", 3 * n + 30], ["add", 1],
                                         ["ngram-run", 2 * n]]})
+    # heavy hitters with keys longer than 255 bytes (refused by the unchanged library; a tree that accepts them must count them)
+    for mkl, klen in ((256, 256), (300, 280), (1000, 999), (255, 255)):
+        cases.append({"type": "ceiling", "family": "hh", "start": 5, "key": hx(bytes(rng.integers(1, 256, klen, dtype=np.uint8))), "width": 3, "depth": 2,
+                      "max_key_len": mkl, "steps": [["add", 3], ["merge", 4], ["add", CAP], ["add", 1], ["merge", 2]]})
     for shape in ((1001, 5), (997, 7), (4099, 1), (2050, 2), (1000, 8), (64 * 65 + 1, 1), (4097, 3)) + ((int(rng.integers(1025, 3000)), int(rng.integers(2, 8))),):
         cases.append({"type": "bigmerge", "width": shape[0], "depth": shape[1], "seed": int(rng.integers(0, 2**31))})
     for r in range(4):
@@ -361,6 +380,7 @@ def replay(case, ctx, mon):
 
 
 def floors(mon, ctx):
+    mon.floor("ceiling cases started by assigning the table", mon.counters["ceiling_cases_started_by_assigning_the_table"], 20)
     mon.floor("merges of nearly saturated tables of >= 4096 cells", mon.counters["big_table_merges"], 8)
     mon.floor("ceiling steps by add_ngram of a byte run (linear)", mon.counters["ceiling_steps_via_add_ngram_of_a_byte_run:linear"], 60)
     for fam in ("linear", "hh"):
